@@ -16,7 +16,7 @@ use chess::game::game::Game;
 use chess::game::stockfish_elo::verif_create_chess_move_from_uci;
 
 use crate::eng::*;
-use crate::gen::{choose_move, choose_start, random_setup, Policy, StartKind};
+use crate::gen::{choose_move, choose_move_seen, choose_start, random_setup, Policy, Seen, StartKind};
 use crate::model::{parse_sq, san, san_lenient_matches, sq_name, Mv, Pos, Side, P};
 use crate::plan::{Op, Outcome, Plan, Stats, Violation};
 use crate::prng::{mix, Digest, Rng};
@@ -133,7 +133,8 @@ pub fn gen_plan(property: &str, seed: u64, index: u64, tier: Tier) -> Plan {
             start = s;
             scenario = "command-stream";
             let len = rng.range(10, if thorough { 80 } else { 40 });
-            let policy = *rng.pick(&[Policy::Spicy, Policy::Hunt, Policy::Uniform]);
+            let policy = *rng.pick(&[Policy::Spicy, Policy::Hunt, Policy::Uniform, Policy::Lookalike]);
+            let mut seen = Seen::default();
             let mut pos = start.clone();
             let mut prev_labels: Vec<String> = Vec::new();
             let mut plies = 0;
@@ -191,7 +192,7 @@ pub fn gen_plan(property: &str, seed: u64, index: u64, tier: Tier) -> Plan {
                     ops.push(Op::Typed(text));
                 }
                 // the accepted message: canonical label or coordinates of a policy-chosen move
-                let k = choose_move(&mut rng, &pos, &legal, policy, None);
+                let k = choose_move_seen(&mut rng, &pos, &legal, policy, None, &mut seen);
                 let m = legal[k];
                 if rng.chance(1, 2) || (m.promo.is_some() && m.promo != Some(P::Queen)) {
                     ops.push(Op::Typed(labels[k].clone()));
